@@ -35,6 +35,7 @@ type Prog struct {
 	modMu    sync.Mutex
 	ordMu    sync.Mutex
 	PureMethods map[string]bool
+	PureFuncs   map[string]bool
 	ords     map[*ssa.Function]map[ssa.Instruction]map[string]int
 }
 
@@ -545,6 +546,9 @@ func (p *Prog) callMods(c *ssa.CallCommon, m *ModSet) {
 	}
 	if p.NoReturn[callee] {
 		return
+	}
+	if p.PureFuncs[FuncName(callee)] {
+		return // assumed pure (listed in the evidence)
 	}
 	if bigRecvKind(callee) == "Int" && bigMutators[callee.Name()] {
 		m.Comps[bigComp] = true // value model of *big.Int
